@@ -62,11 +62,11 @@ def run(chk, replay=None):
 
     traces, meta = [], []
 
-    def forecast_with_total(total, nc=3, nb=2, scale=None):
+    def forecast_with_total(total, nc=3, nb=2, scale=None, dtype=None):
         share = numpy.array([[0.5, 0.1], [0.2, 0.05], [0.1, 0.05]])[:nc, :nb]
         share = share / share.sum()
         data = share * (total / (scale if scale else 1.0))
-        fc = B.forecast(data)
+        fc = B.forecast(data, dtype=dtype)
         if scale:
             fc.scale(scale)
         return fc
@@ -115,6 +115,25 @@ def run(chk, replay=None):
                 else:
                     add_tails('nbd', n, float(r.quantile[0]), float(r.quantile[1]), {'mean': mean, 'var': var})
                 chk.nontrivial('nb|%s|%d|%s' % (total, n, vf))
+    # observed counts of the size of the forecast total (tens to hundreds), forecasts held in double or single precision:
+    # P(N >= n) must still include P(N = n) when n - 1e-6 is not representable next to n in the forecast's own precision
+    for total, n in ((40.0, 40), (40.0, 33), (35.5, 50), (250.0, 250), (100.0, 64), (1000.0, 1024), (16.0, 17)):
+        for dtype in (None, 'float32'):
+            for scale in (None, 0.5):
+                fc = forecast_with_total(total, scale=scale, dtype=dtype)
+                mean = float(fc.event_count)
+                cat = catalog_with(n)
+                r = guarded(pe.number_test, fc, cat)
+                r2 = guarded(be.negative_binomial_number_test, fc, cat, 3.0 * mean)
+                chk.count(2)
+                # (the NBD parameters are derived from the total in the forecast's own precision: compared for double only)
+                for law, rr, prm in (('poisson', r, {'mean': mean, 'scale': scale, 'dtype': dtype}),) + \
+                        ((('nbd', r2, {'mean': mean, 'var': 3.0 * mean, 'dtype': dtype}),) if dtype is None else ()):
+                    if isinstance(rr, Raised):
+                        chk.violation('%s:raised' % law, {'total': total, 'n': n, 'dtype': dtype, 'err': repr(rr)})
+                    else:
+                        add_tails(law, n, float(rr.quantile[0]), float(rr.quantile[1]), prm)
+                chk.nontrivial('big|%s|%d|%s|%s' % (total, n, dtype, scale))
     # the same forecast object evaluated, rescaled and evaluated again: the law must follow the current total
     for total in (0.5, 6.0, 250.0):
         for n in (0, 3, 9):
